@@ -248,6 +248,19 @@ def _impl(tier, seed, search):
             except Exception: continue
             if snap(A_) != b0:
                 L.fail(f'copy-aliases:{iname.split("[")[0]}', f'{iname}: after B = {cls_.__name__}(A), B.{mut_name}(...) changed A', dict(cls=iname, mutation=mut_name))
+    # ---- 3a''''. an empty object filled from another one (extend, +=) owns its values: later list mutations leave the source alone
+    for iname, X in instances():
+        if not isinstance(X, SMUserList) or '#' in iname or not hasattr(type(X), 'Empty'): continue
+        for fill_name, fill in (('extend', lambda E_, Y_: (E_.extend(Y_), E_)[1]), ('+=', lambda E_, Y_: operator.iadd(E_, Y_))):
+            for mut_name, mut in (('append', lambda B_, Y_: B_.append(Y_[0])), ('pop', lambda B_, Y_: B_.pop()), ('reverse', lambda B_, Y_: B_.reverse()), ('extend again', lambda B_, Y_: B_.extend(Y_)), ('+= again', lambda B_, Y_: operator.iadd(B_, Y_))):
+                L.count('fill-then-mutate', key=(iname, fill_name, mut_name)); L.sample('fill-then-mutate', dict(cls=iname, fill=fill_name, mutation=mut_name))
+                try:
+                    Y_ = copy.deepcopy(X); b0 = snap(Y_); E_ = type(X).Empty(); E_ = fill(E_, Y_)
+                    if not isinstance(E_, SMUserList) or len(E_) != len(Y_): continue       # (+= is not concatenation for every class)
+                    mut(E_, Y_)
+                except Exception: continue
+                if snap(Y_) != b0:
+                    L.fail(f'fill-aliases:{iname.split("[")[0]}', f'{iname}: after E = Empty(); E {fill_name} Y, E.{mut_name} changed Y', dict(cls=iname, fill=fill_name, mutation=mut_name))
     # ---- 3a''. histories: an object built from / derived from another value is then the target of an augmented operator; the source must be unchanged
     for cname, cls, mkm in (('SE3', SE3, lambda: inputs.se3(g, 1)), ('SO3', SO3, lambda: inputs.so3(g)), ('SE2', SE2, lambda: inputs.se2(g, 1)), ('SO2', SO2, lambda: inputs.so2(g))):
         for opn, aug in (('*=', operator.imul), ('/=', operator.itruediv)):
